@@ -12,7 +12,6 @@ import (
 	"os"
 	"path"
 	"regexp"
-	"runtime/pprof"
 	"sort"
 	"strings"
 
@@ -712,11 +711,6 @@ func caseFromSx(s Sx) caseT {
 func main() {
 	c := Setup()
 	defer c.Close()
-	if pf := os.Getenv("C20_PROF"); pf != "" {
-		f, _ := os.Create(pf)
-		pprof.StartCPUProfile(f)
-		defer pprof.StopCPUProfile()
-	}
 	// the items log every refused commit and every unreadable blob with a stack trace: silence them
 	if null, err := os.OpenFile(os.DevNull, os.O_WRONLY, 0); err == nil {
 		os.Stderr = null
